@@ -19,7 +19,7 @@ OWN = {
     "C07": {"accepted-concrete-mismatch", "run-panic", "wrong-type-delivered-to-node", "wrong-type-delivered-to-branch", "wrong-type-result",
             "mismatch-not-reported", "typecheck-error-without-mismatch"},
     "C20": {"call-panicked", "error-not-sticky", "illformed-accepted", "modified-after-compile", "outcome-not-deterministic",
-            "runnable-changed-after-compile", "recompile-after-refused-calls-differs", "refused-construction-accepted-on-retry"},
+            "runnable-changed-after-compile", "recompile-after-refused-calls-differs", "refused-construction-accepted-on-retry", "compile-refused-for-options-changed-the-construction"},
 }
 
 
